@@ -25,11 +25,17 @@ CUSTOM = "verif.custom"
 LOCAL = "verif.local"
 UNUSED = "verif.unused"
 SRC_OPSET = 18
+OLD_OPSET = 17          # below the native converter's range: convert_version(fallback=True) goes through the ONNX C API
+
+
+def src_opset(api):
+    return OLD_OPSET if api == "convert_old_fb" else SRC_OPSET
 UP_OPSET = 20
 
 APIS = ["optimize", "optimize_noinline", "rewrite", "rewrite_empty", "fold_constants", "fold_constants_infer", "remove_unused_nodes",
-        "remove_unused_functions", "convert_same", "convert_up", "replace_functions"]
-INPLACE = {"fold_constants", "fold_constants_infer", "remove_unused_nodes", "remove_unused_functions", "convert_same", "convert_up"}
+        "remove_unused_functions", "convert_same", "convert_up", "convert_down_fb", "convert_old_fb", "replace_functions"]
+INPLACE = {"fold_constants", "fold_constants_infer", "remove_unused_nodes", "remove_unused_functions", "convert_same", "convert_up",
+           "convert_down_fb", "convert_old_fb"}
 
 
 # ------------------------------------------------------------------------------------------
@@ -63,7 +69,7 @@ def TensorProto_bool(name, value):
     return t
 
 
-def make_function(pop, name="F", feat=()):
+def make_function(pop, name="F", feat=(), opset=SRC_OPSET):
     from onnx import TensorProto as T
     from onnx import helper
 
@@ -77,7 +83,7 @@ def make_function(pop, name="F", feat=()):
         last = "fs2"
     nodes.append(helper.make_node("Sink", [last], ["r"], name=f"{name}_sink", domain=CUSTOM))
     fn = helper.make_function(LOCAL, name, ["a0"], ["r"], nodes,
-                              opset_imports=[helper.make_opsetid("", SRC_OPSET), helper.make_opsetid(CUSTOM, 3)])
+                              opset_imports=[helper.make_opsetid("", opset), helper.make_opsetid(CUSTOM, 3)])
     if "func_meta" in pop:
         fn.doc_string = f"doc of function {name}"
         _md(fn, fkey=f"fval {name}")
@@ -207,13 +213,13 @@ def build_model(api, pop, feat, payloads=()):
         g.doc_string = "doc of graph"
     if "graph_meta" in pop:
         _md(g, gkey="gval")
-    opsets = [helper.make_opsetid("", SRC_OPSET), helper.make_opsetid(CUSTOM, 3)]
+    opsets = [helper.make_opsetid("", src_opset(api)), helper.make_opsetid(CUSTOM, 3)]
     functions = []
     if api != "replace_functions":
         if "call" in feat:
-            functions.append(make_function(pop, "F", feat))
+            functions.append(make_function(pop, "F", feat, src_opset(api)))
         if "deadfunc" in feat:
-            functions.append(make_function(pop, "G", feat))
+            functions.append(make_function(pop, "G", feat, src_opset(api)))
     if "call" in feat or functions:
         opsets.append(helper.make_opsetid(LOCAL, 1))
     if "opset_unused" in pop:
@@ -274,6 +280,10 @@ def call_api(api, model, pop, feat):
         return version_converter.convert_version(model, SRC_OPSET)
     if api == "convert_up":
         return version_converter.convert_version(model, UP_OPSET)
+    if api == "convert_down_fb":          # target below source: not supported natively -> ONNX C API
+        return version_converter.convert_version(model, OLD_OPSET, fallback=True)
+    if api == "convert_old_fb":           # source below 18: not supported natively -> ONNX C API
+        return version_converter.convert_version(model, SRC_OPSET, fallback=True)
     if api == "replace_functions":
         fns = api_functions(api, pop, feat)
         if isinstance(model, onnx.ModelProto):
@@ -493,7 +503,12 @@ def witness_elements(api, feat, payload_names=()):
     for n in payload_names:
         w.add(("initializer", n))
     if "subgraph" in feat:
-        w |= {("node", "n_then_tanh"), ("node", "n_else_add"), ("node", "n_if")}
+        w |= {("node", "n_then_tanh"), ("node", "n_else_add"), ("node", "n_if"), ("input", "C")}
+    if "init_io" in feat:
+        # the input-with-default and its place in the signature (optimize's OutputFixPass needs to change them: io_sig / inits are in Need there)
+        w |= {("input", "Wio"), ("output", "Wio")}
+        if api not in ("optimize", "optimize_noinline"):
+            w |= {("initializer", "Wio")}
     if "symdims" in feat:
         w |= {("output", "a")}
     if "constif" in feat:
@@ -585,6 +600,8 @@ def abstract_carrier(p, init_names, wit):
         return "nodes"
     if c == "init_payload" and el not in wit:
         return "inits"
+    if c in ("init_doc", "init_meta") and el[0] == "sub_initializer":
+        return "inits"                      # doc / metadata of a branch-owned tensor: part of the rest of the initializers
     if c == "node_struct":
         return "nodes"
     if c == "attr_payload":
@@ -604,7 +621,9 @@ def abstract_set(diffs, init_names, wit, kinds, only_witness=False):
         if kind not in kinds:
             continue
         if only_witness and element(p) not in wit:
-            continue
+            # (the doc / metadata of a branch-owned tensor that is still there is never needed to change either)
+            if not (element(p)[0] == "sub_initializer" and classify(p, init_names) in ("init_doc", "init_meta")):
+                continue
         out.setdefault(abstract_carrier(p, init_names, wit), []).append(f"{path_text(p)}: {kind} {detail}".strip()[:240])
     return out
 
